@@ -134,6 +134,13 @@ Definition client_message (command : str) (args : list str) : str :=
 (** What an operator expects: what was typed is what arrives. *)
 Definition roundtrip_spec (l : list str) : list str := l.
 
+(** [subseq x s]: [x] is [s] with some elements left out (order kept). Used to say that the
+    splitter only ever drops characters: it never invents, duplicates or reorders one. *)
+Inductive subseq : str -> str -> Prop :=
+| sub_nil : subseq [] []
+| sub_skip : forall x c s, subseq x s -> subseq x (c :: s)
+| sub_take : forall x c s, subseq x s -> subseq (c :: x) (c :: s).
+
 (** ---- xval interface ----------------------------------------------------------------------------- *)
 Definition x_str (s : str) : xval := XL (map XN s).
 Definition d_str (x : xval) : option str := d_list d_N x.
